@@ -119,7 +119,7 @@ def gen_scenarios(ctx):
                         out.append(mk(n, perm, rkinds(rng, n), n if ck else None, ck, YP[yp], rng, extras={j: [ex]},
                                       fam="extra:%s%s" % (ex[0], "" if ex[0] != "dup" else (":late" if k_delivered(perm, j, ex[1]) else ":early"))))
     # F4: mixed random: late calls, noresponse calls, slow sends, calls after closure, several extras
-    for _ in range(1500 if quick else 20000):
+    for _ in range(1500 if quick else 150000):
         n = rng.randint(1, 6)
         perm = list(range(n)); rng.shuffle(perm)
         noresp = {k for k in range(n) if rng.random() < 0.2}
